@@ -157,6 +157,9 @@ LFOR:
 		switch p.tk.T {
 		case token.BraceRight:
 			break LFOR
+		case token.Eof:
+			// without this the loop spins forever on an enum that is not closed before the end of the file
+			p.parseErr("enum " + enum.Name + " is not closed")
 		case token.Name:
 			k := p.tk.S.S
 			p.next()
